@@ -393,6 +393,9 @@ class Open(State):
             elif has_recv_cea(self.msg):
                 self.event_open_rcv_cea()
 
+            elif has_recv_dpa(self.msg):
+                self.event_open_rcv_dpa()
+
             else:
                 self.event_open_rcv_message()
             
@@ -488,6 +491,12 @@ class Open(State):
 
         if self.processor.is_valid_capability_exchange(msg=self.msg):
             self.set_open_state()
+
+
+    def event_open_rcv_dpa(self) -> None:
+        open_logger.debug("Event has been triggered.")
+
+        self.set_open_state()
 
 
 class WaitReturns(State):
